@@ -7,8 +7,8 @@ from .terms import ident
 
 # model -> relationship -> (cardinality, target model)
 REL = {
-    "Item": {"owner": ("one", "Owner"), "parts": ("many", "Part"), "tags": ("many", "Tag")},
-    "Owner": {"org": ("one", "Org"), "region": ("one", "Region"), "items": ("many", "Item")},
+    "Item": {"owner": ("one", "Owner"), "home": ("one", "Region"), "parts": ("many", "Part"), "tags": ("many", "Tag")},
+    "Owner": {"org": ("one", "Org"), "region": ("one", "Region"), "home": ("one", "Org"), "items": ("many", "Item")},
     "Org": {"region": ("one", "Region"), "owners": ("many", "Owner")},
     "Tag": {"items": ("many", "Item")},
     "Part": {"item": ("one", "Item")},
@@ -50,7 +50,8 @@ def instances(draw):
     owners = [{"id": i + 1, "name": draw(opt(st.sampled_from(NAMES), 4)), "age": draw(opt(st.sampled_from(SMALL), 4)),
                "rank": draw(st.sampled_from(SMALL)),
                "org": draw(opt(st.integers(1, n_org))) if n_org else None,
-               "region": draw(opt(st.integers(1, n_reg))) if n_reg else None} for i in range(n_own)]
+               "region": draw(opt(st.integers(1, n_reg))) if n_reg else None,
+               "home": draw(opt(st.integers(1, n_org))) if n_org else None} for i in range(n_own)]
     tags = [{"id": i + 1, "label": draw(st.sampled_from(NAMES)), "n": draw(st.sampled_from(SMALL))} for i in range(n_tag)]
     items = []
     parts = []
@@ -60,6 +61,7 @@ def instances(draw):
             "id": i + 1, "i1": draw(opt(st.sampled_from(SMALL), 4)), "i2": draw(opt(st.sampled_from(SMALL), 4)),
             "s1": draw(opt(st.sampled_from(NAMES), 4)), "k": draw(st.sampled_from(SMALL)),
             "owner": draw(opt(st.integers(1, n_own))) if n_own else None,
+            "home": draw(opt(st.integers(1, n_reg))) if n_reg else None,
             "tags": sorted(set(draw(st.lists(st.integers(1, n_tag), max_size=3)))) if n_tag else [],
         })
         for _ in range(draw(st.integers(0, 3))):
@@ -215,11 +217,11 @@ def path_of(segs):
 
 ROOTS = {
     "Item": {"to_one": {("owner",): "Owner", ("owner", "org"): "Org", ("owner", "org", "region"): "Region",
-                        ("owner", "region"): "Region"},
+                        ("owner", "region"): "Region", ("home",): "Region", ("owner", "home"): "Org"},
              "colls": {("parts",): "Part", ("tags",): "Tag", ("owner", "items"): "Item",
                        ("owner", "org", "owners"): "Owner"},
              "scalars": ["i1", "i2", "s1", "k"]},
-    "Owner": {"to_one": {("org",): "Org", ("org", "region"): "Region", ("region",): "Region"},
+    "Owner": {"to_one": {("org",): "Org", ("org", "region"): "Region", ("region",): "Region", ("home",): "Org"},
               "colls": {("items",): "Item", ("org", "owners"): "Owner"},
               "scalars": ["name", "age", "rank"]},
     "Tag": {"to_one": {}, "colls": {("items",): "Item"}, "scalars": ["label", "n"]},
